@@ -21,7 +21,7 @@ def place_path(t):
         elif k == "field":
             fields.append((t[2], t[3], t[4] if len(t) > 4 else None))
             t = t[1]
-        elif k == "call" and t[1] in ("deref", "UnsafeCell::get") and t[2]:
+        elif k == "call" and t[1] in ("deref", "UnsafeCell::get", "as_ptr", "as_slice", "ptr_add") and t[2]:
             t = t[2][0]
         elif k == "variant":
             t = t[1]
